@@ -9,6 +9,7 @@ exhaustively: each generated cache file is truncated at every byte offset and fe
 Oracle: the property text on the real TocCache / TocFetcher / Log / Param stack.
 """
 import json
+import logging
 import os
 import shutil
 import tempfile
@@ -16,6 +17,8 @@ import tempfile
 from core import coqrun
 from fakes import c03_toc as fk
 from props import c03
+
+logging.getLogger('cflib').setLevel(logging.ERROR)   # cache misses are logged as warnings
 
 ID = 'C11'
 PROPERTY_FILE = 'C11/Property.v'
@@ -276,9 +279,8 @@ def truncation_sweep(t, crc, fails, cls_hint='every_prefix'):
         if enc_fetch(got) != want:
             fails.append({'class': 'loaded_differs_from_stored', 'case': {'kind': 'roundtrip', 'table': tjson(t), 'crc': crc},
                           'expected': 'stored table', 'observed': repr(got)[:300]})
-        for k in range(len(txt)):
-            with open(p, 'wb') as f:
-                f.write(txt[:k])
+        for k in range(len(txt) - 1, -1, -1):          # shrink in place: every proper prefix, longest first
+            os.truncate(p, k)
             r = cache.fetch(crc)
             n += 1
             if r is not None:
@@ -338,7 +340,7 @@ def tie(ctx):
             break
     # E: exhaustive truncation per generated file (validates the JSON hypothesis on this CPython)
     fails = []
-    sweep = [gen_table(rng) for _ in range(ctx.scale(14, 120))] + [gen_table(rng, n=20, cls='param'), gen_table(rng, n=0), []]
+    sweep = [gen_table(rng) for _ in range(ctx.scale(40, 300))] + [gen_table(rng, n=20, cls='param'), gen_table(rng, n=0), []]
     for t in sweep:
         n = truncation_sweep(t, rng.getrandbits(32), fails)
         dist['truncation_files'] += 1
